@@ -58,9 +58,19 @@ def _qualifies(h: ast.FunctionDef) -> bool:
         if n is h:
             continue
         if isinstance(n, (ast.Return, ast.Yield, ast.YieldFrom, ast.Await, ast.Nonlocal, ast.Global, ast.FunctionDef, ast.AsyncFunctionDef,
-                          ast.ClassDef, ast.Lambda, ast.ListComp, ast.SetComp, ast.DictComp, ast.GeneratorExp, ast.NamedExpr, ast.Try, ast.Delete)):
+                          ast.ClassDef, ast.Lambda, ast.ListComp, ast.SetComp, ast.DictComp, ast.GeneratorExp, ast.NamedExpr, ast.Delete)):
             return False
     return True
+
+
+class _GetattrConst(ast.NodeTransformer):
+    """`getattr(x, 'name')` with a literal identifier is `x.name`."""
+    def visit_Call(self, node: ast.Call):
+        self.generic_visit(node)
+        if isinstance(node.func, ast.Name) and node.func.id == 'getattr' and len(node.args) == 2 and not node.keywords \
+                and isinstance(node.args[1], ast.Constant) and isinstance(node.args[1].value, str) and node.args[1].value.isidentifier():
+            return ast.copy_location(ast.Attribute(value=node.args[0], attr=node.args[1].value, ctx=ast.Load()), node)
+        return node
 
 
 def _stored_names(h: ast.FunctionDef) -> Set[str]:
@@ -220,8 +230,12 @@ def _inline_in_function(f: ast.FunctionDef) -> int:
                         c = _Rename({k: v for k, v in ren.items() if k not in expr_subst}).visit(copy.deepcopy(hs))
                         if expr_subst:
                             c = _SubstExpr(expr_subst).visit(c)
+                            c = _GetattrConst().visit(c)
                             ast.fix_missing_locations(c)
                         out.append(c)
+                    if expr_subst:
+                        k0 = len(out) - len([hs for hs in h.body if not (isinstance(hs, ast.Expr) and isinstance(hs.value, ast.Constant) and isinstance(hs.value.value, str))])
+                        out[k0:] = _fold_constant_ifs(out[k0:])
                     count += 1
                     continue
             # recurse into compound statements (not into nested defs)
@@ -553,6 +567,9 @@ def _fold_constant_ifs(body: List[ast.stmt]) -> List[ast.stmt]:
             if isinstance(blk, list) and blk and isinstance(blk[0], ast.stmt):
                 new = _fold_constant_ifs(blk)
                 setattr(s, fld, new if new or fld != 'body' else [ast.Pass()])
+        if isinstance(s, ast.Try):
+            for hd in s.handlers:
+                hd.body = _fold_constant_ifs(hd.body) or [ast.Pass()]
         out.append(s)
         # nothing after an unconditional raise / return in this block is live
         if isinstance(s, (ast.Raise, ast.Return)):
